@@ -323,6 +323,15 @@ def elementwise_reset(ctx, fn, field):
     constant 0 / zero() into every element"""
     from ..terms import TermBuilder, const
     heads = fn.loop_heads()
+    if not heads:
+        # slice::fill(zero) on the whole field, on every returning path
+        fills = [w for w in all_writes(ctx, fn) if self_field(w) == field and w["how"] == "call" and w.get("name") == "fill" and len(w["path"]) == 1 and len(w.get("args", [])) == 2]
+        if len(fills) == 1:
+            v = fills[0]["args"][1]
+            zero = v == const(0) or (v[0] == "call" and v[1].endswith("zero") and not v[2]) or v == const(False)
+            pd = fn.postdominators()
+            return bool(zero and fills[0]["bb"] in pd.get(0, set()) | {0})
+        return False
     if len(heads) != 1 or not loop_exits_only_on_exhaustion(fn, heads[0]):
         return False
     ws = [w for w in all_writes(ctx, fn) if self_field(w) == field and w["how"] == "store" and "[]" in w["path"]]
@@ -334,3 +343,45 @@ def elementwise_reset(ctx, fn, field):
     every_iter = all(fn.dominates(ws[0]["bb"], b) for b, h in fn.back_edges())
     its = [w for w in all_writes(ctx, fn) if self_field(w) == field and w["how"] == "borrow" and w.get("name") == "iter_mut"]
     return bool(zero and ws[0]["bb"] in body and every_iter and its)
+
+
+def cellwise_merge(ctx, m, field):
+    """How method `m(self, other)` combines self.<field> with other.<field>. Recognised forms:
+         whole-field store of  collect(map(zip(self.f, other.f), |a, b| op(a, b)))        -> form "collect"
+         whole-field store of  &self.f | &other.f                                         -> form "bitor"
+         `for (a, b) in self.f.iter_mut().zip(&other.f) { *a = op(*a, b) }` run to exhaustion, store in every iteration -> form "in-place"
+       Returns {"form", "elem": op(elem(self.f), elem(other.f)) with parameter names erased, "why"}; form None when unrecognised."""
+    from ..terms import TermBuilder, erase_param_names, elem_of, subterms, fmt
+    selfp, otherp = ("param", 1, None), ("param", 2, None)
+    cells = {repr(("elem", ("field", selfp, field))), repr(("elem", ("field", otherp, field)))}
+    both = {repr(("field", selfp, field)), repr(("field", otherp, field))}
+    ws = [w for w in all_writes(ctx, m) if self_field(w) == field and w["how"] == "store" and not w.get("via")]
+    if len(ws) != 1:
+        return {"form": None, "why": "%d stores to %s" % (len(ws), field)}
+    w = ws[0]
+    v = erase_param_names(w["value"]) if w.get("value") is not None else None
+    if v is None:
+        return {"form": None, "why": "store of an unknown value"}
+    whole = "[]" not in w["path"]
+    if whole and v[0] == "op" and v[1] == "BitOr":
+        ok = sorted(map(repr, v[2])) == sorted(both)
+        return {"form": "bitor" if ok else None, "elem": v, "why": fmt(v)}
+    if whole and v[0] == "call" and v[1].endswith("collect"):
+        e = elem_of(v[2][0])
+        ok = e[0] == "op" and len(e[2]) == 2 and {repr(e[2][0]), repr(e[2][1])} == cells
+        zs = [x for x in subterms(v) if x[0] == "zip"]
+        ok = ok and len(zs) == 1 and {repr(zs[0][1]), repr(zs[0][2])} == both
+        return {"form": "collect" if ok else None, "elem": e, "why": fmt(v)}
+    if not whole:
+        heads = [h for h in m.loop_heads() if w["bb"] in m.natural_loop(h)]
+        if len(heads) != 1:
+            return {"form": None, "why": "element store outside a single loop"}
+        h = heads[0]
+        tb = TermBuilder(m, ctx.prog)
+        st = tb._for_loop_stream(h)
+        st = erase_param_names(st) if st is not None else None
+        ok = st is not None and st[0] == "zip" and {repr(st[1]), repr(st[2])} == both
+        ok = ok and v[0] == "op" and len(v[2]) == 2 and {repr(v[2][0]), repr(v[2][1])} == cells
+        ok = ok and all(m.dominates(w["bb"], b) for b, hh in m.back_edges() if hh == h)
+        return {"form": "in-place" if ok else None, "elem": v, "why": "%s over %s" % (fmt(v), fmt(st) if st else "an unrecognised loop")}
+    return {"form": None, "why": fmt(v)}
